@@ -49,6 +49,9 @@ def run_prop(prop, tier):
     R = rng(prop, 'histories')
     n = 700 if tier == 'quick' else 5000
     hists = [H.gen_history(R, tier) for _ in range(n)]
+    for h in hists:
+        if any('oref_of' in o for o in h['ops']):
+            H.apply_history(h)          # resolves the origin references the user reads off origin objects
     mreps = model.ask([H.hist_req(h) for h in hists]) if bres.ok else [None] * n
     tmp = tempfile.mkdtemp(prefix='verif_hist_')
     try:
@@ -238,6 +241,11 @@ def oracle(prop, chk, case, h, inv, recs, live):
                 chk.fail(key, case, f'logical file {lf}: objects in the file but not added to it: {extra[:5]}; added but '
                                     f'missing: {missing[:5]}')
     if prop == 'C07':
+        for op in h['ops']:
+            if op.get('chosen_origin') is not None and op.get('got_origin') is not None and op['got_origin'] != op['chosen_origin']:
+                chk.fail('identity:chosen-origin-not-used', case,
+                         f"{op['kind']} {op['name']!r} was added with origin_reference=<origin #{op['oref_of']} of logical file "
+                         f"{op['lf']}>.origin_reference = {op['chosen_origin']}, but carries origin {op['got_origin']}")
         for lf in range(n_lf):
             ids = [(st, o, c, n) for (st, sn, objs) in inv[lf] for (n, o, c) in objs]
             if len(set(ids)) != len(ids):
@@ -414,53 +422,79 @@ def oracle_references(chk, r):
     # the expected targets (the objects the user passed) are compared by the C05 fidelity oracle
 
 
-def cross_reference_stream(chk, model, tier):
-    """references whose target was added to ANOTHER logical file: must be refused, or resolve in the file"""
+def cross_reference_stream(chk, model, tier, prop='C07'):
+    """references whose target was added to ANOTHER logical file: must be refused, or resolve in the file.  Every
+    attribute of every object type that can hold an object (reference classes and the OBNAME / OBJREF codes of the
+    pinned schema) in turn, in both directions"""
     import numpy as np
     from dliswriter import DLISFile
-    R = rng('C07', 'cross-lf')
+    R = rng(prop, 'cross-lf')
     tmp = tempfile.mkdtemp(prefix='verif_xref_')
+    targets = [(st, row) for st in sorted(filegen.ATTRS) for row in filegen.ATTRS[st]
+               if row[3] in (23, 24) or row[2] in ('EFLRAttribute', 'EFLROrTextAttribute')]
+    minimal = {'channel': lambda L, n, sn: L.add_channel(n, set_name=sn, data=np.arange(3, dtype=np.float32)),
+               'origin': None, 'frame': None}
     try:
-        for i in range(30 if tier == 'quick' else 300):
+        reps = 1 if tier == 'quick' else 4
+        for i, (st, row) in enumerate(targets * reps):
+            kind = filegen.SETTYPE_KIND[st]
             df = DLISFile(set_identifier='XREF')
             lfs, objs = [], []
             for k in range(2):
                 lf = df.add_logical_file(fh_id=f'H{k}', fh_sequence_number=k + 1)
                 lf.add_origin(f'O{k}', set_name=f'L{k}', file_set_number=3, creation_time='2020/01/01 00:00:00')
                 ch = lf.add_channel(f'CH{k}', set_name=f'L{k}', data=np.arange(3, dtype=np.float32))
-                lf.add_frame(f'FR{k}', channels=[ch], set_name=f'L{k}')
-                z = lf.add_zone(f'Z{k}', set_name=f'L{k}')
-                ax = lf.add_axis(f'A{k}', set_name=f'L{k}')
-                eq = lf.add_equipment(f'E{k}', set_name=f'L{k}')
-                pa = lf.add_parameter(f'P{k}', set_name=f'L{k}')
+                fr = lf.add_frame(f'FR{k}', channels=[ch], set_name=f'L{k}')
+                have = {'CHANNEL': ch, 'FRAME': fr}
+                for kd, (meth, sty, _) in filegen.KINDS.items():
+                    if kd in ('channel', 'frame', 'origin'):
+                        continue
+                    stx, ob = call(getattr(lf, meth), f'{kd[:3].upper()}{k}', set_name=f'L{k}')
+                    if stx == 'ok':
+                        have[sty] = ob
                 lfs.append(lf)
-                objs.append({'channel': ch, 'zone': z, 'axis': ax, 'equipment': eq, 'parameter': pa})
-            src, dst = R.choice([(0, 1), (1, 0)])
-            how = R.choice(['tool-channels', 'tool-parts', 'parameter-zones', 'splice', 'channel-axis', 'group', 'process'])
-            o = objs[src]
+                objs.append(have)
+            src, dst = ((0, 1), (1, 0))[(i + i // len(targets)) % 2]
+            want = row[7].split('ref=')[1].split(';')[0] if 'ref=' in row[7] else '*'
+            target = objs[src].get(want) if want != '*' else objs[src]['ZONE']
+            if target is None:
+                continue
+            val = [target] if row[4] else target
+            kw = {filegen.api_keyword(kind, row[1]): val}
 
             def build():
                 L = lfs[dst]
-                if how == 'tool-channels':
-                    L.add_tool('T', channels=[o['channel']], set_name=f'L{dst}')
-                elif how == 'tool-parts':
-                    L.add_tool('T', parts=[o['equipment']], set_name=f'L{dst}')
-                elif how == 'parameter-zones':
-                    L.add_parameter('PX', zones=[o['zone']], values=[1.0], set_name=f'L{dst}')
-                elif how == 'splice':
-                    L.add_splice('S', output_channel=o['channel'], set_name=f'L{dst}')
-                elif how == 'channel-axis':
-                    L.add_channel('CX', axis=[o['axis']], set_name=f'L{dst}X')
-                elif how == 'group':
-                    L.add_group('G', object_list=[o['zone'], o['axis']], set_name=f'L{dst}')
+                if kind == 'channel':
+                    L.add_channel('CX', set_name=f'L{dst}', data=np.arange(3, dtype=np.float32), **kw)
+                elif kind == 'frame':
+                    L.add_frame('FX', set_name=f'L{dst}', **kw)
                 else:
-                    L.add_process('PR', parameters=[o['parameter']], input_channels=[o['channel']], set_name=f'L{dst}')
+                    getattr(L, filegen.KINDS[kind][0])('NEW', set_name=f'L{dst}', **kw)
                 df.write(f'{tmp}/x.dlis', output_chunk_size=2**20)
-            st, err = call(build)
-            case = {'reference': how, 'target_in_logical_file': src, 'referencing_object_in_logical_file': dst}
-            chk.case('cross-lf-references', nontrivial_key=('x', how, src), sample={**case, 'status': st})
-            chk.count(f'cross-lf:{how}:{st}')
-            if st != 'ok':
+            if i < len(targets):
+                # control: the same call with the target taken from the referencing logical file itself is accepted
+                tgt0 = objs[dst].get(want) if want != '*' else objs[dst]['ZONE']
+                kw0 = {filegen.api_keyword(kind, row[1]): [tgt0] if row[4] else tgt0}
+                L0 = lfs[dst]
+                if kind == 'channel':
+                    c_st, c_err = call(L0.add_channel, 'CX0', set_name=f'L{dst}', data=np.arange(3, dtype=np.float32), **kw0)
+                elif kind == 'frame':
+                    c_st, c_err = 'ok', None        # (a channel belongs to one frame's data here; the control is the file itself)
+                else:
+                    c_st, c_err = call(getattr(L0, filegen.KINDS[kind][0]), 'NEW0', set_name=f'L{dst}', **kw0)
+                chk.count(f'cross-lf:control:{c_st if c_st == "ok" else c_err}')
+                if c_st == 'ok':
+                    c_st, c_err = call(df.write, f'{tmp}/x0.dlis', output_chunk_size=2**20)
+                if c_st != 'ok':
+                    chk.fail('cross-lf:control-refused', {'object': st, 'attribute': row[0]},
+                             f'a reference to an object of the same logical file is refused: {c_err}')
+                    continue
+            stt, err = call(build)
+            case = {'referencing_object': f'{st} (logical file {dst})', 'attribute': row[0],
+                    'target': f'{target.parent.set_type} {target.name!r} of logical file {src}'}
+            chk.case('cross-lf-references', nontrivial_key=('x', st, row[0], src), sample={**case, 'status': stt if stt == 'ok' else err})
+            chk.count(f'cross-lf:{st}.{row[0]}:{stt}')
+            if stt != 'ok':
                 continue
             rep = model.ask([f"dump 8192 {cps('1')} {cps('XREF')} {hexs(open(f'{tmp}/x.dlis', 'rb').read())}"])[0]
             r = wf.Run()
@@ -628,9 +662,11 @@ def c20_failed_write_stream(chk, tier, tmp):
     R = rng('C20', 'failed-write')
     n = 40 if tier == 'quick' else 400
     for i in range(n):
-        spec = filegen.gen_spec(R, n_lf=R.choice([1, 1, 2]), small=True, with_index=R.choice([None, 'uniform']))
-        spec['write'].update({'data_kind': R.choice(['dict', 'inline']), 'from_idx': 0, 'to_idx': None, 'input_chunk_size': None,
-                              'output_chunk_size': 2**20})
+        forced = (i % 4 == 0)
+        spec = filegen.gen_spec(R, n_lf=R.choice([1, 1, 2]), small=True, with_index='uniform' if forced else R.choice([None, 'uniform']),
+                                **({'rows': R.choice([3, 4, 6])} if forced else {}))
+        spec['write'].update({'data_kind': 'dict' if forced else R.choice(['dict', 'inline']), 'from_idx': 0, 'to_idx': None,
+                              'input_chunk_size': None, 'output_chunk_size': 2**20})
         spec['hc'] = False
         rf = filegen.write(spec, tmp, fname='fw_fresh.dlis')        # a fresh specification, written once
         if rf['status'] != 'ok':
@@ -642,10 +678,33 @@ def c20_failed_write_stream(chk, tier, tmp):
         path = f'{tmp}/fw.dlis'
         causes = []
         for _ in range(R.choice([1, 1, 2])):
-            cause = R.choice(['missing-dataset', 'bad-output-chunk', 'bad-input-chunk', 'mode-breach', 'unwritable-path'])
+            cause = R.choice(['missing-dataset', 'bad-output-chunk', 'bad-input-chunk', 'mode-breach', 'unwritable-path',
+                              'uneven-index-in-mode', 'uneven-index-in-mode'])
+            if forced:
+                cause = 'uneven-index-in-mode'
             kw = dict(output_chunk_size=2**20)
             if spec['write']['data_kind'] == 'dict':
                 kw['data'] = dict(b.data)
+            if cause == 'uneven-index-in-mode':
+                # the attempt is handed OTHER index values, unevenly spaced, in high-compatibility mode: refused while the
+                # frame's index attributes are being derived from them; the final write gets the specification's own data
+                import numpy as np
+                idx = [(li, oi, arr) for (li, oi, arr) in b.arrays if spec['lfs'][li]['objects'][oi].get('index_like')
+                       and arr.ndim == 1 and arr.shape[0] >= 3]
+                if 'data' not in kw or not idx:
+                    continue
+                for (li, oi, arr) in idx:
+                    key = next((k for k, v in b.data.items() if v is arr), None)
+                    if key is not None:
+                        alt = np.array([1000 + k_ * k_ for k_ in range(arr.shape[0])]).astype(arr.dtype)
+                        kw['data'][key] = alt
+
+                def hc_write2():
+                    with high_compatibility_mode():
+                        b.df.write(path, **kw)
+                st, err = call(hc_write2)
+                causes.append(f'{cause}:{st}{"" if st == "ok" else ":" + str(err)}')
+                continue
             if cause == 'missing-dataset':
                 if 'data' not in kw or not kw['data']:
                     continue
